@@ -131,3 +131,16 @@ def _realpath_arm(prog, chk):
             ds = fp.defs(rv, rsn[0][0])
             ok = len(ds) == 1 and ds[0][1] is c
     chk.ob("R2.realpath-uses-canonicalize", "_process:REALPATH", ok, pr.loc, "REALPATH -> canonicalize(client path) -> NAME reply with its result")
+    # R3: the path that leaves is the path that was normalised, byte for byte: util.u / util.b, which every path passes
+    # through on its way in (get_text) and out (add_string), convert strictly.  A lenient error handler ("ignore",
+    # "replace", "surrogateescape") lets bytes survive normalisation as part of a name and drops them afterwards, so
+    # `.\xff.` leaves as `..`.
+    for fname, meth in (("util.u", "decode"), ("util.b", "encode")):
+        fu = prog.func(fname)
+        calls = [c for c in walk_no_defs(fu.node) if isinstance(c, ast.Call) and isinstance(c.func, ast.Attribute) and c.func.attr == meth]
+        chk.floor("R3", "%s calls in %s" % (meth, fname), len(calls), 1)
+        for i, c in enumerate(calls):
+            errs = [a for a in c.args[1:2]] + [k.value for k in c.keywords if k.arg == "errors"]
+            strict = all(isinstance(e, ast.Constant) and e.value == "strict" for e in errs)
+            chk.ob("R3.text-conversion-is-strict", "%s#%d" % (fname, i), strict, "%s:%d" % (fu.module.path, c.lineno),
+                   "%s%s" % (unparse(c)[:60], "" if strict else " - a lenient error handler changes the path after it was normalised"))
